@@ -132,6 +132,22 @@ func (w *Words2) Complete(match string) []flags.Completion {
 	return out
 }
 
+// WordsCI is a Completer that matches case-insensitively and answers in its own canonical (lower-case) spelling: what it
+// returns need not start with what was typed.
+type WordsCI string
+
+var WordListCI = []string{"delta", "deluxe", "echo"}
+
+func (w *WordsCI) Complete(match string) []flags.Completion {
+	var out []flags.Completion
+	for _, s := range WordListCI {
+		if strings.HasPrefix(s, strings.ToLower(match)) {
+			out = append(out, flags.Completion{Item: s})
+		}
+	}
+	return out
+}
+
 // ExecCall is one invocation of Execute or of the CommandHandler.
 type ExecCall struct {
 	Via  string // "execute" | "handler"
@@ -260,6 +276,7 @@ var (
 	TMapU16U8 = &Type{"map[uint16]uint8", reflect.TypeOf(map[uint16]uint8{})}
 	TWords    = &Type{"Words", reflect.TypeOf(Words(""))}
 	TWords2   = &Type{"Words2", reflect.TypeOf(Words2(""))}
+	TWordsCI  = &Type{"WordsCI", reflect.TypeOf(WordsCI(""))}
 	TWordss   = &Type{"[]Words", reflect.TypeOf([]Words{})}
 	TIface    = &Type{"interface{}", reflect.TypeOf((*interface{})(nil)).Elem()}
 	TArray    = &Type{"[2]int", reflect.TypeOf([2]int{})}
